@@ -100,10 +100,223 @@ def _process_function(fn):
             return n
 
 
+def split_tuple_assignments(tree):
+    """`a, b = x, y` -> `a = x; b = y` when no target is read by any of the values (a swap is left alone)"""
+    n = 0
+    for node in ast.walk(tree):
+        for f in ("body", "orelse", "finalbody"):
+            blk = getattr(node, f, None)
+            if not (isinstance(blk, list) and blk and isinstance(blk[0], ast.stmt)):
+                continue
+            i = 0
+            while i < len(blk):
+                st = blk[i]
+                if (isinstance(st, ast.Assign) and len(st.targets) == 1 and isinstance(st.targets[0], ast.Tuple) and isinstance(st.value, ast.Tuple)
+                        and len(st.targets[0].elts) == len(st.value.elts) and all(isinstance(t, ast.Name) for t in st.targets[0].elts)
+                        and not any(isinstance(v, ast.Starred) for v in st.value.elts)):
+                    names = [t.id for t in st.targets[0].elts]
+                    read = {x.id for v in st.value.elts for x in ast.walk(v) if isinstance(x, ast.Name)}
+                    if len(set(names)) == len(names) and not (set(names) & read):
+                        new = [ast.copy_location(ast.Assign(targets=[t], value=v), st) for t, v in zip(st.targets[0].elts, st.value.elts)]
+                        blk[i:i + 1] = new
+                        n += 1
+                        i += len(new)
+                        continue
+                i += 1
+    return n
+
+
 def normalise(tree):
-    """in place; returns the number of temporaries inlined"""
-    total = 0
-    for x in ast.walk(tree):
-        if isinstance(x, (ast.FunctionDef, ast.AsyncFunctionDef)):
-            total += _process_function(x)
+    """in place; returns the number of temporaries inlined (private helpers are inlined and tuple assignments split first)"""
+    total = inline_helpers(tree)
+    ast.fix_missing_locations(tree)
+    # temporaries first: `t1 = e1; t2 = e2; a, b = t1, t2` must become `a, b = e1, e2` before deciding whether that assignment splits
+    for _round in range(2):
+        for x in ast.walk(tree):
+            if isinstance(x, (ast.FunctionDef, ast.AsyncFunctionDef)):
+                total += _process_function(x)
+        if _round == 0:
+            if not split_tuple_assignments(tree):
+                break
+            ast.fix_missing_locations(tree)
     return total
+
+
+# ------------------------------------------------------------------------------------------------
+# Helper inlining: "extract function" is the most common behaviour-preserving refactoring, and rules that look at the body of a
+# dispatch rule or of a product method would otherwise lose sight of the code.  Private module-level helpers (leading underscore,
+# no decorators, no *args/**kwargs, straight-line body of assignments ending in one `return <expr>`) are inlined at their call
+# sites inside the same module; their locals get fresh names and parameters are replaced by the argument expressions (the
+# analyses treat library code as pure, so evaluating an argument expression twice does not matter).
+_SIMPLE_STMTS = (ast.Assign, ast.AnnAssign, ast.AugAssign, ast.Expr, ast.Assert, ast.Pass)
+_NO_INLINE_INSIDE = (ast.Lambda, ast.ListComp, ast.GeneratorExp, ast.SetComp, ast.DictComp)
+
+
+def _inlinable_helpers(tree):
+    out = {}
+    for st in tree.body:
+        if not (isinstance(st, ast.FunctionDef) and st.name.startswith("_") and not st.name.startswith("__") and not st.decorator_list):
+            continue
+        a = st.args
+        if a.vararg or a.kwarg or a.posonlyargs:
+            continue
+        body = [s for s in st.body if not (isinstance(s, ast.Expr) and isinstance(s.value, ast.Constant))]
+        if not body or not isinstance(body[-1], ast.Return) or body[-1].value is None:
+            continue
+        if not all(isinstance(s, _SIMPLE_STMTS) for s in body[:-1]):
+            continue
+        if any(isinstance(x, (ast.FunctionDef, ast.Lambda, ast.Yield, ast.YieldFrom, ast.Await, ast.NamedExpr, ast.Global, ast.Nonlocal) + _NO_INLINE_INSIDE) for s in body for x in ast.walk(s)):
+            continue
+        if any(isinstance(x, ast.Call) and isinstance(x.func, ast.Name) and x.func.id == st.name for s in body for x in ast.walk(s)):
+            continue  # recursive
+        out[st.name] = (st, body)
+    return out
+
+
+def _bind(fn, call):
+    """parameter -> argument expression, or None when the call cannot be bound statically"""
+    a = fn.args
+    params = [p.arg for p in a.args] + [p.arg for p in a.kwonlyargs]
+    if any(isinstance(x, ast.Starred) for x in call.args) or any(k.arg is None for k in call.keywords) or len(call.args) > len(a.args):
+        return None
+    bound = {}
+    for p, v in zip([p.arg for p in a.args], call.args):
+        bound[p] = v
+    for k in call.keywords:
+        if k.arg not in params or k.arg in bound:
+            return None
+        bound[k.arg] = k.value
+    defaults = dict(zip([p.arg for p in a.args][len(a.args) - len(a.defaults):], a.defaults))
+    defaults.update({p.arg: d for p, d in zip(a.kwonlyargs, a.kw_defaults) if d is not None})
+    for p in params:
+        if p not in bound:
+            if p not in defaults:
+                return None
+            bound[p] = defaults[p]
+    return bound
+
+
+class _Subst(ast.NodeTransformer):
+    def __init__(self, mapping):
+        self.mapping = mapping
+
+    def visit_Name(self, node):
+        if node.id in self.mapping:
+            new = self.mapping[node.id]
+            if isinstance(new, str):
+                return ast.copy_location(ast.Name(id=new, ctx=node.ctx), node)
+            if isinstance(node.ctx, ast.Load):
+                return _copy(new)
+        return node
+
+
+def _copy(node):
+    import copy
+    return copy.deepcopy(node)
+
+
+def inline_helpers(tree):
+    """in place; returns the number of call sites inlined"""
+    helpers = _inlinable_helpers(tree)
+    if not helpers:
+        return 0
+    counter = [0]
+    total = [0]
+
+    def expand(call):
+        """-> (prefix statements, expression) or None"""
+        fn, body = helpers[call.func.id]
+        bound = _bind(fn, call)
+        if bound is None:
+            return None
+        counter[0] += 1
+        tag = counter[0]
+        params = set(bound)
+        assigned = {t.id for s in body for t in ast.walk(s) if isinstance(t, ast.Name) and isinstance(t.ctx, ast.Store)}
+        # a parameter that the helper re-binds becomes a fresh local initialised with the argument
+        pre = []
+        mapping = {}
+        def simple(e):
+            return isinstance(e, (ast.Name, ast.Constant)) or (isinstance(e, ast.Attribute) and simple(e.value)) or \
+                (isinstance(e, ast.Subscript) and simple(e.value) and isinstance(e.slice, (ast.Constant, ast.Name)))
+        for p, e in bound.items():
+            # an argument that is not a plain reference (a constructor call, an arithmetic expression) is evaluated once, into a
+            # fresh local: substituting it at every use would build distinct objects
+            if p in assigned or not simple(e):
+                fresh = f"_inl{tag}_{p}"
+                pre.append(ast.Assign(targets=[ast.Name(id=fresh, ctx=ast.Store())], value=_copy(e), lineno=call.lineno))
+                mapping[p] = fresh
+            else:
+                mapping[p] = e
+        for v in assigned - params:
+            mapping[v] = f"_inl{tag}_{v}"
+        sub = _Subst(mapping)
+        stmts = [sub.visit(_copy(s)) for s in body[:-1]]
+        expr = sub.visit(_copy(body[-1].value))
+        for s in pre + stmts:
+            ast.copy_location(s, call)
+            ast.fix_missing_locations(s)
+        return pre + stmts, expr
+
+    def process_block(blk, owner_name):
+        i = 0
+        while i < len(blk):
+            st = blk[i]
+            if isinstance(st, (ast.FunctionDef, ast.AsyncFunctionDef)):
+                process_block(st.body, st.name)
+                i += 1
+                continue
+            if isinstance(st, ast.ClassDef):
+                process_block(st.body, owner_name)
+                i += 1
+                continue
+            # calls in the expressions that belong to this statement itself (not to nested blocks)
+            own_exprs = []
+            for f, v in ast.iter_fields(st):
+                if f in ("body", "orelse", "finalbody", "handlers", "cases"):
+                    continue
+                if isinstance(v, ast.AST):
+                    own_exprs.append(v)
+                elif isinstance(v, list):
+                    own_exprs += [x for x in v if isinstance(x, ast.AST)]
+            target = None
+            for e in own_exprs:
+                blocked = set()
+                for x in ast.walk(e):
+                    if isinstance(x, _NO_INLINE_INSIDE + (ast.IfExp, ast.BoolOp)):
+                        blocked |= {id(y) for y in ast.walk(x) if y is not x}
+                for x in ast.walk(e):
+                    if isinstance(x, ast.Call) and isinstance(x.func, ast.Name) and x.func.id in helpers and x.func.id != owner_name and id(x) not in blocked:
+                        target = x
+                        break
+                if target is not None:
+                    break
+            if target is not None and not isinstance(st, (ast.For, ast.While, ast.With)) or (target is not None and isinstance(st, (ast.If, ))):
+                res = expand(target)
+                if res is not None:
+                    pre, expr = res
+
+                    class R(ast.NodeTransformer):
+                        def visit_Call(self, node):
+                            if node is target:
+                                return expr
+                            return self.generic_visit(node)
+                    blk[i] = R().visit(st)
+                    blk[i:i] = pre
+                    total[0] += 1
+                    if total[0] > 500:
+                        return
+                    continue  # look at the same statements again (nested helper calls)
+            for f in ("body", "orelse", "finalbody"):
+                b = getattr(st, f, None)
+                if isinstance(b, list) and b and isinstance(b[0], ast.stmt):
+                    process_block(b, owner_name)
+            for h in getattr(st, "handlers", []) or []:
+                process_block(h.body, owner_name)
+            for c in getattr(st, "cases", []) or []:
+                process_block(c.body, owner_name)
+            i += 1
+
+    process_block(tree.body, None)
+    ast.fix_missing_locations(tree)
+    return total[0]
